@@ -165,7 +165,7 @@ void FnEmitter::emitCall(const CallBase& CB) {
     std::string a = IA->getAsmString();
     if (a == "pause" || a == "pause;" || a == "rep; nop" || a == "rep; nop;") {
       body << "  VF_PAUSE();\n";
-      if (step) body << "  if (vf_probe_mode && vf_blocked[" << tid << "]) return;\n";
+      if (step) body << "  if (vf_dead || (vf_probe_mode && vf_blocked[" << tid << "])) return;\n";
       return;
     }
     if (a.empty()) return; // compiler barrier
@@ -181,7 +181,11 @@ void FnEmitter::emitCall(const CallBase& CB) {
       body << "  VF_ASSERT(" << val(CB.getArgOperand(0)) << ", \"" << cEscape(msg) << "\");\n";
       return;
     }
-    if (n == "vf_assume") { body << "  VF_ASSUME(" << val(CB.getArgOperand(0)) << ");\n"; return; }
+    if (n == "vf_assume") {
+      if (step) body << "  VF_ASSUME_STEP(" << val(CB.getArgOperand(0)) << "); if (vf_dead) return;\n";
+      else body << "  VF_ASSUME(" << val(CB.getArgOperand(0)) << ");\n";
+      return;
+    }
     if (n == "_setjmp" || n == "setjmp" || n == "__sigsetjmp") {
       // (in a thread body everything is inlined into one function, so setjmp/longjmp are a local label and goto)
       body << "  " << lname[&CB] << " = 0;\n  vf_after_setjmp: ;\n";
@@ -279,6 +283,7 @@ void FnEmitter::emitCall(const CallBase& CB) {
   call += ")";
   if (hasRes) body << "  " << lname[&CB] << " = " << call << ";\n";
   else body << "  " << call << ";\n";
+  if (step && !(callee && callee->getName().startswith("vf_"))) body << "  if (vf_dead) return;\n"; // the callee ended the path (blocked / fatal)
   if (T.usesUnwind && !step) {
     // after a call that may longjmp: propagate unwinding (setjmp model)
     if (usesSetjmp) body << "  if (vf_unwinding) goto vf_setjmp_landing;\n";
